@@ -3,6 +3,7 @@ package main
 import (
 	"fmt"
 	"os"
+	"strings"
 	"unicode/utf8"
 
 	"verifsim/kit"
@@ -36,7 +37,7 @@ func c07Configs(r *kit.Rand, tier string) []func(lang string) Cfg {
 	case 0:
 		cfgs = append(cfgs, func(l string) Cfg { return Cfg{Lang: l, KeepComments: true, Recover: 3} })
 	case 1:
-		stop := kit.Pick(r, []string{"$$", "foo", "}", "é"})
+		stop := kit.Pick(r, []string{"$$", "foo", "}", "é", "éé", "é$", "日x", "done", "%", "ech", "EOF"})
 		if os.Getenv("VERIF_NO_STOPAT") != "" { // development aid only
 			break
 		}
@@ -111,6 +112,14 @@ func runC07(it *Item, tier string, st *Stats) ([]Violation, uint64) {
 		nrand = 20
 	}
 	cfgFns := c07Configs(r.Fork("cfg"), tier)
+	if strings.HasPrefix(it.Origin, "extra[") {
+		// the hand-written inputs are few: run them under every option
+		for _, stop := range []string{"$$", "foo", "}", "é", "éé", "é$", "日x", "done", "%", "ech", "EOF", ";", "#"} {
+			stop := stop
+			cfgFns = append(cfgFns, func(l string) Cfg { return Cfg{Lang: l, KeepComments: true, StopAt: stop} })
+		}
+		cfgFns = append(cfgFns, func(l string) Cfg { return Cfg{Lang: l, Recover: 5} })
+	}
 	inputHash := kit.Hash64(data)
 	sampled := false
 	for _, lang := range it.Langs {
